@@ -16,7 +16,15 @@ func TestProp_Simul(t *testing.T)    { PartSimul.Run(t) }
 func TestRace_Sessions(t *testing.T) { PartSessRace.Run(t) }
 func TestRace_Cause(t *testing.T)    { PartCauseRace.Run(t) }
 func TestRace_Simul(t *testing.T)    { PartSimulRace.Run(t) }
-func TestRace_Server(t *testing.T)   { PartSrvRace.Run(t) }
+
+// thorough tier only: a failing accept-limit case is expensive to minimise (every attempt waits the bounded patience
+// before the accept loop's state decides), and under -race the sampling goroutine makes it slower still
+func TestRace_Server(t *testing.T) {
+	if vkit.Tier() != "thorough" {
+		t.Skip("thorough tier only")
+	}
+	PartSrvRace.Run(t)
+}
 
 func TestReplay(t *testing.T) {
 	PartSess.Replay(t, 10)
